@@ -39,7 +39,7 @@ ASSUMPTIONS = [
 
 TB_NAME = re.compile(r"^traceback(-\d+)*$")
 TRACEBACK_KINDS = {"fail", "error", "failsub", "mismatch", "kbd", "exit", "kbdsub", "exitsub", "basedirect", "xfail", "xfail_err",
-                   "eqexc", "sameobj"}
+                   "eqexc", "sameobj", "unhashable", "eqany"}
 
 
 def x_prog(ctx, case):
@@ -184,7 +184,8 @@ def _one_run(ctx, case, shared, second=False):
         fixture_tok = tok.startswith("FX")
         # exceptions that compare equal / the same object raised by several stages share a token:
         # one traceback per RAISE
-        n_raises = sum(1 for k2, t2, _ in env.raised if t2 == tok)
+        n_raises = sum(1 for k2, t2, _ in env.raised if t2 == tok and
+                       (k2 in TRACEBACK_KINDS or k2.startswith("custom:")))
         ok = len(hits) >= 1 if fixture_tok else len(hits) == n_raises
         n_lost = sum(1 for lp in lost_payloads if needle in lp)
         ctx.check(ok, "traceback.one-per-raised-failure",
